@@ -61,7 +61,11 @@ type vsCountingStore struct {
 	opened int
 	closed int
 	live   []*vsCountedAcc
-	delay  time.Duration // the next look-up takes this long
+	// slow: requests in flight that drew a slow store look-up; while there is one, every look-up is
+	// slow (a delay that only the next look-up consumed could be taken by another request's look-up,
+	// and the request that drew it would be judged as if its own had been slow)
+	slow      int
+	slowDelay time.Duration
 }
 
 // closeLeftovers closes what the code under test failed to close (after it was judged), so that
@@ -93,8 +97,10 @@ func (a *vsCountedAcc) Close() error {
 
 func (c *vsCountingStore) GetByHeight(ctx context.Context, h uint64) (eds.AccessorStreamer, error) {
 	c.mu.Lock()
-	d := c.delay
-	c.delay = 0
+	d := time.Duration(0)
+	if c.slow > 0 {
+		d = c.slowDelay
+	}
 	c.mu.Unlock()
 	if d > 0 {
 		// a slow store look-up (cold disk): longer than the write timeout, shorter than the time a
@@ -448,8 +454,14 @@ func vsServerWorld(s *verifsim.Sim, dir string) {
 				s.Fault("slow-store-lookup")
 				lookupTakes = 11 * time.Second
 				cst.mu.Lock()
-				cst.delay = lookupTakes
+				cst.slow++
+				cst.slowDelay = lookupTakes
 				cst.mu.Unlock()
+				defer func() {
+					cst.mu.Lock()
+					cst.slow--
+					cst.mu.Unlock()
+				}()
 			}
 			if split > 0 {
 				_, _ = str.Write(req.raw[:split])
@@ -500,7 +512,9 @@ func vsServerWorld(s *verifsim.Sim, dir string) {
 				s.Probe("refused-by-reset")
 				return
 			}
+			tStatus := time.Since(tOpen)
 			payload, rerr := io.ReadAll(rd)
+			s.Note("%s: %s: status %v read %v after open, payload %d bytes (err=%v) complete %v after open; lookup takes %v", name, req.desc, resp.Status, tStatus, len(payload), rerr, time.Since(tOpen), lookupTakes)
 			// a client that took longer than the server's write timeout to drain the response may see it cut
 			slowDrain := readMode != 0 || time.Since(tOpen) >= lookupTakes+sp.WriteTimeout/2
 			switch resp.Status {
